@@ -17,6 +17,7 @@ mod tensor;
 mod rand;
 mod geometry;
 mod f80;
+mod fft;
 
 use util::arg_value;
 
@@ -57,6 +58,8 @@ fn main() {
         ("rand", "record") => rand::record(seed, &tier, &out),
         ("geometry", "record") => geometry::record(seed, &tier, &out),
         ("f80", "record") => f80::record(seed, &tier, &out),
+        ("fft", "replay") => fft::replay(&args[3], &out),
+        ("fft", "record") => fft::record(seed, &tier, &out),
         ("mint", "record") => mint::record(seed, &tier, &out),
         ("writer", "replay") => writer::replay(&args[3], &out),
         ("writer", "record") => writer::record(seed, &tier, &out),
